@@ -42,7 +42,7 @@ for k,v in groups.items():
                         print(k,"probe",repr(c["probes"][x]),json.dumps({a:b for a,b in c.items() if a not in("id","k","probes")},ensure_ascii=False)[:int(os.environ.get("W","600"))]); print("    impl :",ii[x],"=>",pi[x]); print("    model:",mi[x]); print("    spec :",si[x]); break
                 continue
             print(k,"(shape)",i[:150],"|",mm[:150],"|",ss[:150]); continue
-        if ("data" in c or c.get("k") in ("yfilter","ycfg","yuses","ymods","yxp","yconc")) and os.environ.get("ITEM","1")=="1":
+        if ("data" in c or c.get("k") in ("yfilter","ycfg","yuses","ymods","yxp","yconc","yenc")) and os.environ.get("ITEM","1")=="1":
             il=i.split("\n"); ml=mm.split("\n"); sl=ss.split("\n")
             for x in range(max(len(il),len(ml),len(sl))):
                 a=il[x] if x<len(il) else "-"; b=ml[x] if x<len(ml) else "-"; d=sl[x] if x<len(sl) else "-"
